@@ -264,7 +264,7 @@ def channel_selection(rng):
     if c == 3:
         return [int(v) for v in rng.permutation(4)[: int(rng.integers(1, 5))] + 1]
     if c == 4:
-        return [1, 2, 3, 4, 4, 2][: int(rng.integers(5, 7))]
+        return [[1, 2, 3, 4, 4, 2][: int(rng.integers(5, 7))], [1, 2, 3, 4, 5], [4, 3, 2, 1, 1, 2, 3]][int(rng.integers(3))]
     if c == 5:
         return [0, 3, 7]
     if c == 6:
@@ -345,8 +345,13 @@ def w_setters(ctx, rng, i):
             arg, requested = v, [v] * len(chans)
         else:
             vals = [value_near(rng, lo, hi, integer) for _ in chans]
-            arg = [vals, tuple(vals), np.array(vals)][int(rng.integers(3))]
             requested = vals
+            if sel is not None and np.size(sel) > len(chans) and rng.integers(2):
+                # one value per entry of an over-long channel selection: the surplus is dropped with the surplus channels (a warning, not an error)
+                # (surplus values are kept inside the range: whether an out-of-range value that is dropped anyway deserves a warning is not specified)
+                surplus = [rng.uniform(lo + 0.1 * (hi - lo), hi - 0.1 * (hi - lo)) for _ in range(int(np.size(sel)) - len(chans))]
+                vals = vals + [int(round(v)) if integer else float(v) for v in surplus]
+            arg = [vals, tuple(vals), np.array(vals)][int(rng.integers(3))]
         ctx.describe(kind=kind, dry_run=dry, channels=sel, requested=requested, scalar=scalar)
         with session(ctx, ppg, inst) as s:
             getattr(ppg, name)(arg, sel)
